@@ -59,6 +59,23 @@ def _edge_ops(fn):
     return out
 
 
+def _ctor_only(ctx, cls, fn, depth=0):
+    """a private helper that is referenced only from __init__ (or from other such helpers) of its class: part of construction"""
+    if not fn.name.startswith('_') or fn.name.startswith('__') or depth > 3:
+        return False
+    refs = []
+    for c in ctx.model.classes:
+        if not c.module.name.startswith('streamz') or '.tests' in c.module.name:
+            continue
+        for mname, m in c.methods.items():
+            if m.owner is not c:
+                continue
+            for n in own_nodes(m.node):
+                if isinstance(n, ast.Attribute) and n.attr == fn.name and not (m is fn):
+                    refs.append(m)
+    return bool(refs) and all(m.name == '__init__' or _ctor_only(ctx, cls, m, depth + 1) for m in refs)
+
+
 def check_both_ends(ctx, R, classes):
     for cls in classes:
         for mname, fn in cls.methods.items():
@@ -72,7 +89,7 @@ def check_both_ends(ctx, R, classes):
                 dual_end = 'up' if e == 'down' else 'down'
                 dual = [o for o in ops if o[0] == k and o[1] == dual_end and o[2] == arg and o[3] == recv and o[5] == blk]
                 ok = bool(dual)
-                if not ok and mname == '__init__' and k == 'add' and e == 'down' and arg == 'self':
+                if not ok and (mname == '__init__' or _ctor_only(ctx, cls, fn)) and k == 'add' and e == 'down' and arg == 'self':
                     # constructor: `for upstream in self.upstreams: upstream.downstreams.add(self)` - the other end is
                     # the very list being iterated
                     loop = next((l for l in ast.walk(fn.node) if isinstance(l, ast.For) and any(x is node for x in ast.walk(l))), None)
